@@ -31,6 +31,12 @@ Binding: TypeAlias = Arg
 TypeBinding = Tuple[str, Qtype]
 
 
+# names whose calls the ast rewriter / constant folder replace before translation
+REWRITTEN_BUILTINS = (
+    "print", "range", "len", "sum", "ord", "chr", "any", "all", "min", "max", "abs",
+)  # fmt: skip
+
+
 class Env:
     def __init__(self) -> None:
         self.bindings: List[Binding] = []
@@ -63,6 +69,13 @@ class Env:
     def bind_function(self, deff: LogicFun):
         if self.know_type(deff[0]):
             return
+
+        if deff[0] in REWRITTEN_BUILTINS:
+            # calls of these names are rewritten as the builtin before they are looked up here
+            raise Exception(
+                f"A function cannot be called like the builtin '{deff[0]}': its calls would be "
+                "translated as calls of the builtin"
+            )
 
         # Replace all the symbols in expr with def_name$symbol: "$" cannot occur in a python
         # identifier, so a renamed symbol never collides with a variable of the caller
